@@ -472,3 +472,44 @@ func judgeClient(s peer.ID, cl *ident, host string, log []exchange, seen map[str
 	}
 	return verdict{reason: reason}
 }
+
+// provenIn: the server identities PROVEN in one call's log: ids whose key (offered in a response of that
+// call) verifies a signature of that call over (a fresh challenge this client sent in it, the client's
+// key, the hostname).
+func provenIn(log []exchange, cl *ident, host string, seen map[string]bool) (out []peer.ID) {
+	var challenges, sigs, keys []string
+	for _, ex := range log {
+		challenges = append(challenges, looseParams(ex.authz)["challenge-server"]...)
+		for _, h := range []string{"WWW-Authenticate", "Authentication-Info"} {
+			rp := looseParams(ex.hdr.Values(h))
+			sigs = append(sigs, rp["sig"]...)
+			keys = append(keys, rp["public-key"]...)
+		}
+	}
+	done := map[peer.ID]bool{}
+	for _, k := range keys {
+		kb, ok := looseB64(k)
+		if !ok {
+			continue
+		}
+		pk, err := crypto.UnmarshalPublicKey(kb)
+		if err != nil {
+			continue
+		}
+		id, err := peer.IDFromPublicKey(pk)
+		if err != nil || done[id] {
+			continue
+		}
+		for _, ch := range challenges {
+			for _, sg := range sigs {
+				if sig, ok := looseB64(sg); ok {
+					if good, err := pk.Verify(serverProofData(ch, cl.pubBytes, host), sig); err == nil && good && !done[id] {
+						done[id] = true
+						out = append(out, id)
+					}
+				}
+			}
+		}
+	}
+	return
+}
